@@ -10,6 +10,10 @@ CHECKS = {}
 NA = {}
 
 
+ROUND6 = {"C15": " Plain Python lists of Op as left / right operands of * + and += since round 6.",
+          "C02": " Since round 6 also three oscillators of one class and size with different (dyadic) frequencies and origins distributed over the nodes of every tree shape."}
+
+
 def claim(pid, category, text, note, technique, design_ref, thorough=True):
     CHECKS[pid] = dict(
         property_id=pid,
@@ -21,6 +25,7 @@ def claim(pid, category, text, note, technique, design_ref, thorough=True):
         level_note=note,
         technique=technique,
     )
+    CHECKS[pid]["level_note"] += ROUND6.get(pid, "")
     if thorough:
         CHECKS[pid]["thorough_cmd"] = "./check %s --tier thorough" % pid
 
